@@ -26,6 +26,8 @@ ASSUMPTIONS = [
     "hasseb answers only frames whose opcode is a query (model of its internal table)",
     "ATX hat: 'N' = no answer, 'J<hex>' = answer, one line per transmission; daliserver: 4-byte reply (version, status 0/1/255, value, pad)",
 ]
+SANITY = ["answers_value_tridonic", "answers_value_hasseb", "answers_value_luba", "answers_value_sci", "answers_err_tridonic",
+          "answers_err_hasseb", "answers_none_luba", "answers_value_daliserver", "answers_value_atx", "late_answer_reported_as_no_answer"]
 BOUNDS = {"quick": "single caller: 9 kinds x 7 outcomes at d<=2; pairs: 9 x 3 kinds x 6 outcome pairs at d<=1, 12 selected at d<=2; triples at d<=1",
           "thorough": "single caller d<=3; all pairs d<=2; selected pairs d<=3; triples d<=2"}
 
@@ -105,6 +107,7 @@ def judge_result(res, driver, kind, out, cmd, result, strict, case, who, others=
         return "wrongtype"
     raw = result.raw_value
     got = ("none",) if raw is None else (("err",) if raw.error else ("value", raw.as_integer))
+    observe(res, f"answers_{got[0]}_{driver}")
     if out[0] == "err" and driver in ("luba", "sci"):
         return "serial-err"
     if got != tuple(out):
